@@ -142,6 +142,14 @@ def run(ctx):
     traces = vlib.split_traces(events)
     if len(traces) != len(scns):
         raise vlib.InfraError("driver recorded %d traces for %d scenarios" % (len(traces), len(scns)))
+    # a client transport error (no reply, and no panic of the keepstore handler) is not an observation
+    # of keepstore: such traces are dropped and counted, never judged
+    infra = [t for t in traces if any(e["ev"] == "infra" for e in t)]
+    traces = [t for t in traces if not any(e["ev"] == "infra" for e in t)]
+    ctx.extra["traces_dropped_transport_error"] = len(infra)
+    if len(infra) > 5:
+        raise vlib.InfraError("%d scenarios hit a client transport error (first: %s)"
+                              % (len(infra), [e for e in infra[0] if e["ev"] == "infra"][0].get("why")))
     ctx.evaluations = len(traces)
     # drift: model's predicted replies / final files vs what the code did (never a verdict)
     ndrift = 0
